@@ -15,7 +15,10 @@ The oracle states the property directly on the implementation after every rewrit
 from __future__ import annotations
 
 import copy
+import json
+import random
 import sys
+import zlib
 from collections import Counter
 
 import numpy as np
@@ -245,9 +248,14 @@ def run_impl9(prog, deep=True, params=None):
     for op in prog:
         is_rw = op[0] in REWRITES
         before = before_obj = None
+        others = {}
         if is_rw and source_of(op) in pool:
             before = snapshot9(pool[source_of(op)])
             before_obj = copy.deepcopy(pool[source_of(op)])
+            # every other circuit alive (copies, sums, parents and sub-circuits share component objects with the one
+            # that is rewritten); for copy / frozen copy also the circuit that is copied
+            in_place = op[0] not in ("copy", "copyf")
+            others = {cid: snapshot9(x) for cid, x in pool.items() if not (in_place and cid == op[1])}
         try:
             if params is not None:
                 apply_param_op(pool, op, params)
@@ -277,6 +285,14 @@ def run_impl9(prog, deep=True, params=None):
                         fail = f"oracle raised {type(e).__name__}: {e} at {op}"
                     if fail:
                         fail = f"op #{len(steps)} {op}: {fail}"
+                if fail is None:
+                    for cid, sb in others.items():
+                        if cid == op[1] and op[0] in ("copy", "copyf"):
+                            continue             # the name was re-bound to the new copy
+                        d = core.approx_equal(sb, snapshot9(pool[cid]), tol=1e-12)
+                        if d:
+                            fail = f"op #{len(steps)} {op}: the rewrite changed circuit {cid}, which is not the one rewritten: {d}"
+                            break
             elif fail is None:
                 fail = f"op #{len(steps)} {op}: rewrite call raised {out['err']}"
         elif "ok" in out and op[1] in copies and op[0] not in ("new", "unitary"):
@@ -584,6 +600,62 @@ def gen_tree9(rng, tier):
     return prog
 
 
+def extend9(prog):
+    """Sums (a + copy of a, a + a) of herald-free circuits of the program - operands and sum hold the SAME component
+    objects - followed by rewrites on the sum and on the operands.  Own PRNG seeded by the program text, so the
+    programs drawn from the shared stream are as before."""
+    rng = random.Random(zlib.crc32(json.dumps(prog).encode()))
+    if rng.random() < 0.6:
+        return prog
+    made = [op[1] for op in prog if op[0] in ("new", "unitary", "copy", "copyf")]
+    tainted = set()
+    for op in prog:
+        if op[0] == "herald":
+            tainted.add(op[1])
+        elif op[0] == "add" and op[2] in tainted:
+            tainted.add(op[1])
+        elif op[0] in ("copy", "copyf") and op[2] in tainted:
+            tainted.add(op[1])
+    plain = [i for i in made if i not in tainted]
+    if not plain:
+        return prog
+    nid = max(made) + 1
+    a = rng.choice(plain)
+    b = a
+    if rng.random() < 0.6:
+        b = nid
+        nid += 1
+        prog.append(["copy", b, a])
+    z = nid
+    prog.append(["plus", z, a, b] if rng.random() < 0.5 else ["plus", z, b, a])
+    for _ in range(rng.randint(1, 3)):
+        prog.append([rng.choice(["compress", "compress", "nonadj", "nonadj", "unpack"]), rng.choice([z, z, a, b])])
+    if rng.random() < 0.4:
+        prog.append([rng.choice(["copy", "copyf"]), nid + 1, z])
+        prog.append([rng.choice(["compress", "nonadj"]), rng.choice([z, nid + 1])])
+    return prog
+
+
+def gen_tiny(rng):
+    """single-mode circuits and circuits without any component: every rewrite must cope with them"""
+    n = rng.choice([1, 1, 1, 2, 3])
+    prog = [["new", 0, n]]
+    if rng.random() < 0.7:
+        for _ in range(rng.randint(1, 3)):
+            k = rng.choice(["ps", "loss", "barrier", "swaps"])
+            if k == "ps":
+                prog.append(["ps", 0, rng.randrange(n), rng.randrange(len(cg.PHV)), cg.gen_value_loss(rng, 0.3)])
+            elif k == "loss":
+                prog.append(["loss", 0, rng.randrange(n), cg.gen_value_loss(rng, 1.0)])
+            elif k == "barrier":
+                prog.append(["barrier", 0, rng.choice([None, [], [0]])])
+            else:
+                prog.append(["swaps", 0, rng.choice([[], [[0, 0]], [[n - 1, n - 1]]])])
+    st = {"nid": 1, "swaps": []}
+    gen_rewrites(rng, prog, [0], st, {0: None}, rng.randint(2, 5), more=False)
+    return prog
+
+
 def parametrise(rng, prog):
     """Replace about half of the numeric values by Parameters."""
     pars = []
@@ -615,7 +687,9 @@ class C09:
             "many ModeSwaps (transpositions, cycles, fixed-point keys, inverses of earlier ones), Unitary blocks, plain and heralded "
             "sub-circuits added grouped/ungrouped; swap chains separated by blocking components; circgen trees (nested heralded groups); "
             "each followed by 1-6 rewrite calls (unpack_groups, compress_mode_swaps, remove_non_adjacent_bs, copy, frozen copy) interleaved "
-            "with further construction calls on originals and copies; Parameter-carrying variants for the frozen-copy oracle. "
+            "with further construction calls on originals and copies; sums a + copy(a) / a + a followed by rewrites on the sum and on the "
+            "operands; single-mode circuits and circuits without components; after every rewrite EVERY other live circuit (copies, sums, "
+            "parents, sub-circuits; for copies also the source) must be as before; Parameter-carrying variants for the frozen-copy oracle. "
             "Non-trivial = at least one rewrite that changed the component list or a copy that was later modified; "
             "distinct = distinct program JSON")
     CHUNK = 26
@@ -643,6 +717,11 @@ class C09:
                 base = [(["copy"] + op[1:]) if op[0] == "copyf" else op for op in base]
                 prog, pars = parametrise(rng, base)
                 cases.append(dict(kind="param", prog=prog, pars=pars, target=0))
+        for c in cases:
+            if c["kind"] != "param":
+                c["prog"] = extend9(c["prog"])
+        for i in range(n // 20):
+            cases.append(dict(kind="flat", prog=gen_tiny(rng)))
         return cases
 
     def impl(self, c):
